@@ -882,6 +882,12 @@ class Emitter:
         self.emitted_globals = []
         self.extern_globals = []
         self.adhoc_by_size = {}
+        self.frame_defs = []
+        self.auto_resumable = False
+        self.shared_yield = False
+        self.yield_calls = set()
+        self.yield_after = set()
+        self.yield_twophase = set()
 
     # ---- names
     def sname(self, t):
@@ -1024,6 +1030,8 @@ class Emitter:
             n = v[1]
             if n in self.m.funcs or n in self.m.decls or n in self.replace:
                 self.note_ext(n)
+                if n in self.resumable and n not in self.replace:
+                    return '((u8*)&%s_addr)' % self.fname(n)
                 return '((u8*)&%s)' % self.fname(n)
             g = self.m.globals.get(n)
             if g is not None and g.get('alias') is not None:
@@ -1344,6 +1352,8 @@ class Emitter:
         fs, gs = self.reach(roots)
         self.reach_fs, self.reach_gs = set(fs), set(gs)
         fs = [n for n in self.m.funcs if n in fs]
+        if self.auto_resumable:
+            self.resumable = self.compute_resumable(fs)
         bodies = []
         for n in fs:      # dry run: find functions the translator cannot handle
             try:
@@ -1354,6 +1364,7 @@ class Emitter:
             except NotImplementedError as e:
                 self.untranslated[n] = str(e)
         self.emitted_funcs = []
+        self.frame_defs = []
         for n in fs:
             if n in self.untranslated:
                 continue
@@ -1394,12 +1405,18 @@ class Emitter:
                     self.untranslated['@' + n] = str(e)
         # prototypes
         protos = []
+        frames = []
         for n in fs:
             f = self.m.funcs[n]
             if n in self.untranslated:
                 self.externs_used[n] = True
                 continue
             if n in self.resumable:
+                cn = self.fname(n)
+                protos.append('void %s_init(int%s);' % (cn, ''.join(', ' + self.ct(t) for t, _ in f.params)))
+                protos.append('int %s_step(int);' % cn)
+                protos.append('int %s_enabled(int);' % cn)
+                frames.append(n)
                 continue
             protos.append(self.proto(self.fname(n), f.ret, [t for t, _ in f.params], f.vararg) + ';')
         for n in self.externs_used:
@@ -1416,10 +1433,13 @@ class Emitter:
             pass
         hdr = ['/* generated by ir2c.py - do not edit */',
                '#include "ir2c_rt.h"']
+        if self.resumable:
+            hdr.append('#include "env_sched.h"   /* semantics of the visible operations (RS_* / RS_ENABLED_*) */')
         st = self.emit_structs(self.used_types + [t for (t, _) in self.anon.values()])
         # anon structs may have been added during emission of structs: iterate to fixpoint
         st = self.emit_structs(self.used_types + [t for (t, _) in self.anon.values()])
-        out = hdr + st + list(self.arr_typedefs.values()) + protos + gdecl + gl + bodies
+        raddr = ['u8 %s_addr; /* identity of a step function whose address is taken */' % self.fname(n) for n in fs if n in self.resumable]
+        out = hdr + st + list(self.arr_typedefs.values()) + protos + raddr + gdecl + self.frame_defs + gl + bodies
         if True:
             cl = [c for c in self.m.ctors if c in fs and c not in self.untranslated]
             out.append('void %sglobal_ctors(void) {\n%s\n}' % (self.pfx, '\n'.join('  %s();' % self.fname(c) for c in cl)))
@@ -1440,6 +1460,15 @@ class Emitter:
 
     def emit_function(self, f):
         ctx = Emitter.Ctx()
+        mon_save = self.monitor
+        if f.name.startswith('vf_'):
+            self.monitor = False          # shim accessors (used by the monitor itself) are not part of the code under test
+        try:
+            return self._emit_function(f, ctx)
+        finally:
+            self.monitor = mon_save
+
+    def _emit_function(self, f, ctx):
         body = self.emit_body(f, ctx)
         ps = ', '.join('%s %s' % (self.ct(t), self.local(n, ctx)) for t, n in f.params)
         if f.vararg:
@@ -1590,8 +1619,10 @@ class Emitter:
                 elif op == 'load':
                     r = declare(I, I['ty'])
                     pe = self.cv(PTR8, I['p'], ctx)
-                    if self.monitor and yield_cb:
-                        L.extend(yield_cb('access', pe, self.m.size(I['ty']), 0))
+                    if self.shared_yield and yield_cb and self.is_shared_access(I, ctx):
+                        L.extend(yield_cb('shared'))
+                    if self.monitor and not self.is_local_ptr(I['p'], ctx):
+                        L.append('  IR2C_ACCESS(%s, %d, 0);' % (pe, self.m.size(I['ty'])))
                     if self.odd(I['ty']):
                         nb = (self.m.resolve(I['ty']).bits + 7) // 8
                         L.append('  %s = (%s)(%s)%s;' % (r, self.ct(I['ty']), ' | '.join('((u64)((u8*)%s)[%d] << %d)' % (pe, i, 8 * i) for i in range(nb)),
@@ -1600,8 +1631,10 @@ class Emitter:
                         L.append('  %s = *(%s*)%s;' % (r, self.cbase(I['ty']), pe))
                 elif op == 'store':
                     pe = self.cv(PTR8, I['p'], ctx)
-                    if self.monitor and yield_cb:
-                        L.extend(yield_cb('access', pe, self.m.size(I['ty']), 1))
+                    if self.shared_yield and yield_cb and self.is_shared_access(I, ctx):
+                        L.extend(yield_cb('shared'))
+                    if self.monitor and not self.is_local_ptr(I['p'], ctx):
+                        L.append('  IR2C_ACCESS(%s, %d, 1);' % (pe, self.m.size(I['ty'])))
                     if self.odd(I['ty']):
                         nb = (self.m.resolve(I['ty']).bits + 7) // 8
                         vv = self.cv(I['ty'], I['v'], ctx)
@@ -1710,10 +1743,10 @@ class Emitter:
                 a = [self.cv(t, v, ctx) for t, v in args]
                 if base.startswith('llvm.memcpy') or base.startswith('llvm.memmove') or base.startswith('llvm.memset'):
                     fn = 'memcpy' if 'memcpy' in base else 'memmove' if 'memmove' in base else 'memset'
-                    if self.monitor and yield_cb:
-                        L.extend(yield_cb('access', a[0], a[2], 1))
+                    if self.monitor:
+                        L.append('  IR2C_ACCESS(%s, %s, 1);' % (a[0], a[2]))
                         if fn != 'memset':
-                            L.extend(yield_cb('access', a[1], a[2], 0))
+                            L.append('  IR2C_ACCESS(%s, %s, 0);' % (a[1], a[2]))
                     L.append('  %s((void*)%s, %s, %s);' % (fn, a[0], ('(void*)' + a[1]) if fn != 'memset' else a[1], a[2]))
                     return L
                 r = declare(I, rt)
@@ -1923,6 +1956,8 @@ class Emitter:
         self.last_slot = slot
 
         def ok(n):
+            if n in self.resumable and n not in self.replace:
+                return False
             if n in self.m.funcs and n not in self.reach_fs and n not in self.replace:
                 return False
             sg = self.sig_of(n)
@@ -1944,79 +1979,185 @@ class Emitter:
         return out
 
     # ------------------------------------------------------------------ resumable functions
-    def emit_resumable(self, f):
-        """Emit f as  int PFX<f>_step(int tid)  with a static frame per thread.
+    def compute_resumable(self, fs):
+        """functions that (transitively, through direct calls) reach a visible operation: they become step functions"""
+        yielding = set()
+        changed = True
+        while changed:
+            changed = False
+            for n in fs:
+                if n in yielding or n in self.replace:
+                    continue
+                f = self.m.funcs[n]
+                hit = False
+                for b in f.blocks.values():
+                    for I in b:
+                        if I['op'] in ('call', 'invoke') and I['callee'][0] == 'global':
+                            c = I['callee'][1]
+                            if c in self.replace:
+                                continue
+                            if c in self.yield_calls or c in yielding:
+                                hit = True
+                if hit:
+                    yielding.add(n)
+                    changed = True
+        return yielding
 
-        Protocol (see env/sched.h): the step function resumes at frame->pc, runs until the next
-        visible operation and returns one of
-            RS_RUNNING  (stopped *before* a visible operation; call again to perform it)
-            RS_DONE     (function returned)
-        Visible operations are the external calls listed in IR2C_YIELD_CALLS of the environment
-        (pthread_mutex_lock, condition_variable::wait, thread::join, ...). The environment
-        decides enabledness through  RS_ENABLED_<op>(tid, args...) , which the scheduler queries via
-        PFX<f>_enabled(tid).
-        All loads/stores/mem* are reported to the monitor through IR2C_ACCESS(tid, p, n, w).
-        """
+    def is_shared_access(self, I, ctx):
+        """loads/stores of process globals and of fields of lock-bearing objects (a struct that contains a pthread mutex):
+        the locations that the code protects with a lock somewhere and that may also be touched outside it"""
+        p = I['p']
+        seen = 0
+        while p[0] == 'local' and seen < 8:
+            d = ctx.defs.get(p[1])
+            if d is None:
+                return False
+            if d['op'] == 'cast':
+                p = d['a']
+            elif d['op'] == 'getelementptr':
+                if self.has_mutex(d['srcty']):
+                    return True
+                p = d['ops'][0][1]
+            else:
+                return False
+            seen += 1
+        if p[0] == 'global':
+            g = self.m.globals.get(p[1])
+            return g is not None and not g['const']
+        if p[0] == 'gep':
+            if self.has_mutex(p[1]):
+                return True
+            q = p[2][0][1]
+            if q[0] == 'global':
+                g = self.m.globals.get(q[1])
+                return g is not None and not g['const']
+        return False
+
+    def is_local_ptr(self, p, ctx):
+        seen = 0
+        while p[0] == 'local' and seen < 10 and hasattr(ctx, 'defs'):
+            d = ctx.defs.get(p[1])
+            if d is None:
+                return False
+            if d['op'] == 'alloca':
+                return True
+            if d['op'] == 'cast':
+                p = d['a']
+            elif d['op'] == 'getelementptr':
+                p = d['ops'][0][1]
+            else:
+                return False
+            seen += 1
+        return False
+
+    def has_mutex(self, t, depth=0):
+        t = self.m.resolve(t)
+        if depth > 6:
+            return False
+        if t.k == 'struct':
+            if t.name is not None and 'pthread_mutex' in t.name:
+                return True
+            return any(self.has_mutex(f, depth + 1) for f in (t.fields or []))
+        if t.k == 'arr':
+            return self.has_mutex(t.elem, depth + 1)
+        return False
+
+    def emit_resumable(self, f):
+        """Emit f as a step function with a static frame per logical thread:
+             void <f>_init(int tid, params...)     prepare a call
+             int  <f>_step(int tid)                run from the saved pc up to the next visible operation; RS_RUNNING or RS_DONE
+             int  <f>_enabled(int tid)             may the pending visible operation be executed now?
+        Visible operations: the calls in --yield-calls (stop BEFORE them; enabledness RS_ENABLED_<op>), a stop AFTER the calls in
+        --yield-after, two-phase calls (--yield-twophase: <op>_begin, stop, <op>_end with RS_ENABLED_<op>_end), and - with
+        --shared-yield - a stop before each access to a process global or to a field of a lock-bearing object while RS_SHOULD_YIELD().
+        Calls to other step functions are nested (callee frame, caller re-enters the callee until it is done).
+        Every load/store/mem* is reported through IR2C_ACCESS(p, n, w) when --monitor is given."""
         ctx = Emitter.Ctx()
         fr = '%sFR_%s' % (self.pfx, san(f.name))
         ctx.lp = 'F->'
         pcs = [0]
-        yields = []   # (pc, kind, name, args)
+        enab = []   # (pc, C expression)
+
+        def newpc():
+            pc = len(pcs)
+            pcs.append(pc)
+            return pc
 
         def ycb(kind, *a):
             if kind == 'access':
                 p, n, w = a
-                return ['  IR2C_ACCESS(tid, %s, %s, %d);' % (p, n, w)]
+                return ['  IR2C_ACCESS(%s, %s, %d);' % (p, n, w)]
+            if kind == 'shared':
+                pc = newpc()
+                return ['  if (RS_SHOULD_YIELD(tid)) { F->pc = %d; return RS_RUNNING; }' % pc, 'R_%d: ;' % pc]
             if kind == 'ret':
                 v = a[0]
                 return ['  F->pc = -1; %sreturn RS_DONE;' % ('F->retval = %s; ' % v if v is not None else '')]
             if kind == 'call':
                 n, args, I, declare = a
+                rt = self.m.resolve(I['rt'])
+                has_res = not (rt.k == 'void' or I['res'] is None)
                 if n in self.yield_calls:
-                    pc = len(pcs)
-                    pcs.append(pc)
-                    cn = self.fname(n)
-                    yields.append((pc, n, args))
                     L = []
-                    # save args into frame so that enabled() can inspect them
+                    pc = newpc()
                     for i, x in enumerate(args):
                         an = 'y%d_%d' % (pc, i)
                         ctx.decls[an] = '%s %s' % (self.ct(I['args'][i][0]), an)
                         L.append('  F->%s = %s;' % (an, x))
+                    fa = ', '.join(['tid'] + ['F->y%d_%d' % (pc, i) for i in range(len(args))])
+                    two = n in self.yield_twophase
+                    enab.append((pc, 'RS_ENABLED_%s%s(%s)' % (san(n), '_begin' if two else '', fa)))
                     L.append('  F->pc = %d; return RS_RUNNING;' % pc)
                     L.append('R_%d: ;' % pc)
-                    fa = ', '.join(['tid'] + ['F->y%d_%d' % (pc, i) for i in range(len(args))])
-                    rt = self.m.resolve(I['rt'])
-                    if rt.k == 'void' or I['res'] is None:
-                        L.append('  RS_%s(%s);' % (san(n), fa))
-                    else:
-                        r = declare(I, I['rt'])
-                        L.append('  %s = RS_%s(%s);' % (r, san(n), fa))
-                    if n in self.yield_after:
-                        pc2 = len(pcs)
-                        pcs.append(pc2)
-                        yields.append((pc2, None, None))
+                    if two:
+                        L.append('  RS_%s_begin(%s);' % (san(n), fa))
+                        pc2 = newpc()
+                        enab.append((pc2, 'RS_ENABLED_%s_end(%s)' % (san(n), fa)))
                         L.append('  F->pc = %d; return RS_RUNNING;' % pc2)
                         L.append('R_%d: ;' % pc2)
+                        call = 'RS_%s_end(%s)' % (san(n), fa)
+                    else:
+                        call = 'RS_%s(%s)' % (san(n), fa)
+                    if has_res:
+                        L.append('  %s = %s;' % (declare(I, I['rt']), call))
+                    else:
+                        L.append('  %s;' % call)
+                    if n in self.yield_after:
+                        pc3 = newpc()
+                        L.append('  F->pc = %d; return RS_RUNNING;' % pc3)
+                        L.append('R_%d: ;' % pc3)
                     return L
-                if n in self.resumable and n != f.name:
-                    raise NotImplementedError('nested resumable call to %s (inline it)' % n)
+                if n in self.resumable and n not in self.replace:
+                    if n == f.name:
+                        raise NotImplementedError('recursive step function')
+                    pc = newpc()
+                    cf = '%sFR_%s' % (self.pfx, san(n))
+                    L = ['  %s_init(%s);' % (self.fname(n), ', '.join(['tid'] + args))]
+                    L.append('  F->pc = %d;' % pc)
+                    L.append('R_%d: ;' % pc)
+                    L.append('  if (%s_step(tid) == RS_RUNNING) return RS_RUNNING;' % self.fname(n))
+                    enab.append((pc, '%s_enabled(tid)' % self.fname(n)))
+                    if has_res:
+                        L.append('  %s = %s_frames[tid].retval;' % (declare(I, I['rt']), cf))
+                    return L
                 return None
             if kind == 'icall':
                 return None
             return None
         body = self.emit_body(f, ctx, ycb)
         L = []
-        L.append('struct %s {' % fr)
-        L.append('  int pc;')
+        FL = []
+        FL.append('struct %s {' % fr)
+        FL.append('  int pc;')
         if self.m.resolve(f.ret).k != 'void':
-            L.append('  %s retval;' % self.ct(f.ret))
+            FL.append('  %s retval;' % self.ct(f.ret))
         for t, n in f.params:
-            L.append('  %s %s;' % (self.ct(t), self.local(n, None)))
+            FL.append('  %s %s;' % (self.ct(t), self.local(n, None)))
         for n, d in ctx.decls.items():
-            L.append('  %s;' % d)
-        L.append('};')
-        L.append('struct %s %s_frames[RS_MAX_THREADS];' % (fr, fr))
+            FL.append('  %s;' % d)
+        FL.append('};')
+        FL.append('struct %s %s_frames[RS_MAX_THREADS];' % (fr, fr))
+        self.frame_defs.append('\n'.join(FL))
         ps = ''.join(', %s %s' % (self.ct(t), self.local(n, None)) for t, n in f.params)
         L.append('void %s_init(int tid%s) {' % (self.fname(f.name), ps))
         L.append('  struct %s *F = &%s_frames[tid];' % (fr, fr))
@@ -2024,19 +2165,17 @@ class Emitter:
         for t, n in f.params:
             L.append('  F->%s = %s;' % (self.local(n, None), self.local(n, None)))
         L.append('}')
-        # enabled()
         L.append('int %s_enabled(int tid) {' % self.fname(f.name))
         L.append('  struct %s *F = &%s_frames[tid];' % (fr, fr))
         L.append('  switch (F->pc) {')
         L.append('    case -1: return 0;')
-        for pc, n, args in yields:
-            if n is None:
-                continue
-            fa = ', '.join(['tid'] + ['F->y%d_%d' % (pc, i) for i in range(len(args))])
-            L.append('    case %d: return RS_ENABLED_%s(%s);' % (pc, san(n), fa))
+        for pc, e in enab:
+            L.append('    case %d: return %s;' % (pc, e))
         L.append('    default: return 1;')
         L.append('  }')
         L.append('}')
+        if self.m.resolve(f.ret).k != 'void':
+            L.append('%s %s_result(int tid) { return %s_frames[tid].retval; }' % (self.ct(f.ret), self.fname(f.name), fr))
         L.append('int %s_step(int tid) {' % self.fname(f.name))
         L.append('  struct %s *F = &%s_frames[tid];' % (fr, fr))
         L.append('  switch (F->pc) {')
@@ -2048,7 +2187,7 @@ class Emitter:
         L.extend(body)
         L.append('}')
         self.resumable_info = getattr(self, 'resumable_info', {})
-        self.resumable_info[f.name] = dict(pcs=len(pcs), yields=[(pc, n) for pc, n, _ in yields])
+        self.resumable_info[f.name] = dict(pcs=len(pcs))
         return '\n'.join(L)
 
 
@@ -2063,6 +2202,9 @@ def main():
     ap.add_argument('--yield-calls', default='')
     ap.add_argument('--yield-after', default='')
     ap.add_argument('--monitor', action='store_true')
+    ap.add_argument('--yield-twophase', default='')
+    ap.add_argument('--shared-yield', action='store_true')
+    ap.add_argument('--auto-resumable', action='store_true')
     ap.add_argument('--meta', default=None)
     a = ap.parse_args()
     m = parse_module(open(a.ll).read())
@@ -2071,6 +2213,9 @@ def main():
     e = Emitter(m, a.prefix, rep, res, a.monitor)
     e.yield_calls = set(x for x in a.yield_calls.split(',') if x)
     e.yield_after = set(x for x in a.yield_after.split(',') if x)
+    e.yield_twophase = set(x for x in a.yield_twophase.split(',') if x)
+    e.shared_yield = a.shared_yield
+    e.auto_resumable = a.auto_resumable
     roots = [x for x in a.roots.split(',') if x]
     if not roots:
         roots = [n for n in m.funcs if n.startswith('vf_')]
